@@ -263,16 +263,42 @@ func (po *parserOps) reader(name string, mk func(b []byte) io.Reader, doc string
 	}}
 }
 
-func (po *parserOps) unm(name, doc string) Kind {
+func (po *parserOps) unm(name, doc string) Kind { return po.unmX(name, doc, false) }
+
+// unmX: badTarget recomposes into an *int (the parse succeeds, the recompose step fails).
+func (po *parserOps) unmX(name, doc string, badTarget bool) Kind {
 	return Kind{Name: name, API: po.prefix + "Unmarshal", Run: func(inst any) Out {
 		if po.setReuse != nil {
 			po.setReuse(inst, false)
 		}
 		b := []byte(doc)
 		var target any
-		err := po.unmarshal(inst, b, &target)
+		var err error
+		if badTarget {
+			var n int
+			err = po.unmarshal(inst, b, &n)
+			target = n
+		} else {
+			err = po.unmarshal(inst, b, &target)
+		}
 		return Out{Res: parseRes(target, err, nil), View: func() any { return held(target, err, nil) }, Scribble: scribbler(b)}
 	}}
+}
+
+// tempKinds: for every option or flag an entry point sets only for the duration of the call (ForceFloat in
+// Unmarshal, NumConv, callback, channel), a FAILING call of that entry point; followed in the histories by
+// plain calls whose results are type-sensitive (int64 vs float64 vs json.Number are different abstract values).
+func (po *parserOps) tempKinds() (first, rest []Kind) {
+	if po.unmarshal != nil {
+		first = append(first, po.unm("unmarshal_bad", `{"x":1,"y":[2,}}`))
+		rest = append(rest, po.unmX("unmarshal_badtarget", dUnm, true))
+	}
+	if po.conv {
+		rest = append(rest, po.doc("conv_float_bad", `[1.5,12345678901234567890123,}`, false, ojg.NumConvFloat64),
+			po.doc("conv_string_bad", `[1.5,12345678901234567890123,}`, false, ojg.NumConvString))
+	}
+	rest = append(rest, po.multi("multi_cb_bad", `{"a":1} [2,{"b":3}] }`, "cbbool", 0), po.multi("multi_chan_bad", `{"a":1} [2,}`, "chan", 0))
+	return
 }
 
 func whole(b []byte) io.Reader  { return bytes.NewReader(b) }
@@ -313,10 +339,13 @@ func (po *parserOps) jsonMenu() []Kind {
 		po.doc("reuse_maps2", dReuse2, true),
 		po.doc("nums", dNums, false),
 	}
+	tfirst, trest := po.tempKinds()
 	ks = append(ks, rfirst...)
 	ks = append(ks,
 		po.reader("reader_fail", failer, `{"a":[1,2,`),
-		po.reader("reader_by3", by3, dEsc),
+		po.reader("reader_by3", by3, dEsc))
+	ks = append(ks, tfirst...)
+	ks = append(ks,
 		po.doc("bad_key", dBadKey, false),
 		po.multi("multi_chan", dMulti, "chan", 0),
 	)
@@ -340,6 +369,7 @@ func (po *parserOps) jsonMenu() []Kind {
 	if po.conv {
 		ks = append(ks, po.doc("conv_string", dNums, false, ojg.NumConvString))
 	}
+	ks = append(ks, trest...)
 	return append(ks, rrest...)
 }
 
@@ -361,9 +391,11 @@ func (po *parserOps) senMenu() []Kind {
 		po.doc("reuse_maps2", dReuse2, true),
 		po.doc("conv_float", dNums, false, ojg.NumConvFloat64),
 	}
+	tfirst, trest := po.tempKinds()
 	ks = append(ks, rfirst...)
+	ks = append(ks, po.reader("reader_fail", failer, `{a:[1 2 `))
+	ks = append(ks, tfirst...)
 	ks = append(ks,
-		po.reader("reader_fail", failer, `{a:[1 2 `),
 		po.doc("squote", dSenSq, false),
 		// ---- beyond the first 20
 		po.doc("plus_pending_top", dSenPlusT, false),
@@ -382,6 +414,7 @@ func (po *parserOps) senMenu() []Kind {
 	if po.unmarshal != nil {
 		ks = append(ks, po.unm("unmarshal", dUnm))
 	}
+	ks = append(ks, trest...)
 	return append(ks, rrest...)
 }
 
@@ -562,6 +595,14 @@ func (w *failW) Write(p []byte) (int, error) {
 	return len(p), nil
 }
 
+// deep returns v wrapped in n arrays.
+func deep(n int, v any) any {
+	for i := 0; i < n; i++ {
+		v = []any{v}
+	}
+	return v
+}
+
 var (
 	wData = map[string]any{"k": []any{1, "x<y>&z", true, nil, 2.5, map[string]any{"n": []any{}}}}
 	wSort = map[string]any{"b": 1, "a": []any{map[string]any{"z": nil, "y": "s"}, int64(3)}, "c": map[string]any{}}
@@ -646,6 +687,11 @@ func (wo *wrOps) menu() []Kind {
 		str("struct_plain", withOpt(def, func(o *ojg.Options) { o.NestEmbed = true; o.OmitNil = true; o.Sort = true }), &tagged{A: 1, B: "b", inner: inner{In: 3}}),
 		str("chan_nonstrict", def, []any{make(chan int), 1}),
 		str("noreflect", withOpt(def, func(o *ojg.Options) { o.NoReflect = true }), []any{inner{In: 7}}),
+		// internal mode switches, each followed (in the histories) by ordinary values: nesting beyond the
+		// indentation strings (128 spaces / 31 tabs)
+		str("deep_indent", withOpt(def, func(o *ojg.Options) { o.Sort = true; o.Indent = 2 }), deep(140, map[string]any{"k": []any{1, 2}})),
+		str("deep_tab", withOpt(def, func(o *ojg.Options) { o.Tab = true }), deep(40, []any{1, "x"})),
+		str("deep_tight", def, deep(140, 1)),
 		str("misc_opts", withOpt(def, func(o *ojg.Options) {
 			o.HTMLUnsafe = false
 			o.BytesAs = ojg.BytesAsArray
@@ -671,7 +717,11 @@ func (wo *wrOps) menu() []Kind {
 func prettyMenu() []Kind {
 	set := func(inst any, o ojg.Options, width, depth int, align, senOut bool) *pretty.Writer {
 		w := inst.(*pretty.Writer)
+		// Indent, InitSize and WriteLimit are managed by pretty.Writer itself (encode defaults / recomputes
+		// them); a caller never sets them, so the kinds leave whatever the previous call left there.
+		ind, is, wl := w.Indent, w.InitSize, w.WriteLimit
 		w.Options = o
+		w.Indent, w.InitSize, w.WriteLimit = ind, is, wl
 		w.Width, w.MaxDepth, w.Align, w.SEN = width, depth, align, senOut
 		return w
 	}
@@ -720,6 +770,15 @@ func prettyMenu() []Kind {
 		wr("write_fail", srt, 80, wSort, 0),
 		wr("write_long", srt, 30, wLong, 1000),
 		mar("marshal_struct", withOpt(ojg.GoOptions, func(o *ojg.Options) { o.Sort = true }), 80, 3, false, false, &tagged{A: 1, C: []int{2}}),
+		// internal mode switches: nesting deeper than Width*3/8 (indent downgrade), deeper than the indentation
+		// string, width beyond the indentation string
+		mar("marshal_deep40", srt, 80, 3, false, false, deep(40, map[string]any{"k": []any{1, 2}})),
+		mar("marshal_deep29", srt, 80, 3, false, false, deep(29, []any{1, 2})),
+		mar("marshal_deep140_sen", srt, 40, 2, false, true, deep(140, 1)),
+		mar("marshal_w200", srt, 200, 3, true, false, wRows),
+		enc("encode_deep40", srt, 80, 3, false, false, deep(40, wSort)),
+		wr("write_deep40", srt, 80, deep(40, wSort), 1000),
+		wr("write_fail_deep", srt, 80, deep(40, wSort), 0),
 	}
 }
 
